@@ -33,15 +33,15 @@ Print Assumptions C01_db_get_contents.
 (** a write batch keeps the invariant, and afterwards every lookup agrees with the sorted-map
     semantics of the batch *)
 Theorem C01_write_preserves_wf :
-  forall (d1fix : bool) (mfs : N) (b : list wop) (s : lsm),
-    lsm_wf_b s = true -> lsm_wf_b (lsm_step d1fix mfs s (SWrite b)) = true.
+  forall (d1fix d14fix : bool) (mfs : N) (b : list wop) (s : lsm),
+    lsm_wf_b s = true -> lsm_wf_b (lsm_step d1fix d14fix mfs s (SWrite b)) = true.
 Proof. exact write_wf. Qed.
 Print Assumptions C01_write_preserves_wf.
 
 Theorem C01_write_then_get :
-  forall (d1fix : bool) (mfs : N) (s : lsm) (b : list wop),
+  forall (d1fix d14fix : bool) (mfs : N) (s : lsm) (b : list wop),
     lsm_wf_b s = true ->
-    forall k, db_get (lsm_step d1fix mfs s (SWrite b)) k
+    forall k, db_get (lsm_step d1fix d14fix mfs s (SWrite b)) k
               = map_get k (map_apply (contents (all_entries s) (l_seq s)) b).
 Proof. exact C01_write_then_get_proof. Qed.
 Print Assumptions C01_write_then_get.
@@ -205,7 +205,7 @@ Proof. vm_compute. reflexivity. Qed.
 
 (** a write batch on [ex_state] *)
 Example ex_write_then_get :
-  let s' := lsm_step false 1000 ex_state (SWrite [WPut kd [9]; WDel kb; WPut ke [8]; WDel ke]) in
+  let s' := lsm_step false false 1000 ex_state (SWrite [WPut kd [9]; WDel kb; WPut ke [8]; WDel ke]) in
   (lsm_wf_b s', db_get s' ka, db_get s' kb, db_get s' kc, db_get s' kd, db_get s' ke)
   = (true, None, None, Some [3; 14], Some [9], None).
 Proof. vm_compute. reflexivity. Qed.
